@@ -114,8 +114,20 @@ class LayerMerger(LayerMerger):
                     result.paste(img, (0, 0))
             else:
                 if opacity is not None and opacity < 1.0:
-                    img = img.convert(result.mode)
-                    result = Image.blend(result, img, layer_image_opts.opacity)
+                    if img.mode in ('RGBA', 'P'):
+                        # layer has (or may have) transparent pixels: fade the
+                        # alpha channel and use it as mask, Image.blend would
+                        # mix in the color of fully transparent pixels
+                        img = img.convert('RGBA')
+                        alpha = img.split()[3]
+                        alpha = ImageChops.multiply(
+                            alpha,
+                            ImageChops.constant(alpha, int(255 * opacity))
+                        )
+                        result.paste(img, (0, 0), alpha)
+                    else:
+                        img = img.convert(result.mode)
+                        result = Image.blend(result, img, layer_image_opts.opacity)
                 elif img.mode in ('RGBA', 'P'):
                     # assume paletted images have transparency
                     if img.mode == 'P':
